@@ -35,7 +35,10 @@ impl<const N: usize> Rib for RibbonController<N> {
     }
 }
 
-pub const FS_MENU: [u32; 14] = [100, 250, 999, 1000, 1500, 2000, 4000, 8000, 10000, 22050, 44100, 48000, 96000, 192000];
+pub const FS_MENU: [u32; 22] = [
+    100, 250, 999, 1000, 1500, 2000, 4000, 8000, 10000, 22050, 44100, 48000, 96000, 192000, 500, 667, 3000, 16000, 32000, 88200,
+    176400, 133,
+];
 
 macro_rules! mk {
     ($fs:expr, $cfg:expr) => {
@@ -59,7 +62,15 @@ fn make(cfg: &Cfg) -> Box<dyn Rib> {
         10 => mk!(44100, cfg),
         11 => mk!(48000, cfg),
         12 => mk!(96000, cfg),
-        _ => mk!(192000, cfg),
+        13 => mk!(192000, cfg),
+        14 => mk!(500, cfg),
+        15 => mk!(667, cfg),
+        16 => mk!(3000, cfg),
+        17 => mk!(16000, cfg),
+        18 => mk!(32000, cfg),
+        19 => mk!(88200, cfg),
+        20 => mk!(176400, cfg),
+        _ => mk!(133, cfg),
     })
 }
 
@@ -73,7 +84,7 @@ pub struct Cfg {
 
 impl Cfg {
     pub fn fs(&self) -> u32 {
-        FS_MENU[self.fs_idx.min(13)]
+        FS_MENU[self.fs_idx.min(FS_MENU.len() - 1)]
     }
     pub fn capacity(&self) -> usize {
         sample_rate_to_capacity(self.fs())
@@ -576,7 +587,7 @@ impl Engine for RibbonEngine {
     fn shrink_cfg(c: &Cfg) -> Vec<Cfg> {
         let mut v = Vec::new();
         for idx in [3usize, 0, 8] {
-            if idx != c.fs_idx && idx < c.fs_idx {
+            if FS_MENU[idx] < c.fs() {
                 v.push(Cfg { fs_idx: idx, ..c.clone() });
             }
         }
@@ -596,7 +607,8 @@ impl Engine for RibbonEngine {
 // ---------------------------------------------------------------------------------------------
 
 fn gen_cfg(rng: &mut Rng, small: bool) -> Cfg {
-    let fs_idx = if small { rng.usize(6) } else { rng.usize(14) };
+    let small_idx: Vec<usize> = (0..FS_MENU.len()).filter(|i| FS_MENU[*i] <= 3000).collect();
+    let fs_idx = if small { *rng.pick(&small_idx) } else { rng.usize(FS_MENU.len()) };
     let (softpot, dropper, pullup) = if rng.chance(0.3) {
         (20e3f32, 820.0f32, 1e6f32)
     } else {
